@@ -686,10 +686,15 @@ func (index *setIndex) CheckIntegrity(ctx MutateContext, fix bool, errorSink fun
 		valuesCursor := setBucket.Cursor()
 		for val, _ := valuesCursor.First(); val != nil; val, _ = valuesCursor.Next() {
 			_, value := GetTypeAndValue(val)
-			idxBucket := index.getIndexBucket(tx, value)
+			// only create the index key when fixing, a check must not modify the index
+			idxBucket := Path(tx, index.indexPath...).GetBucketByKey(value)
 			key := PrependFieldType(TypeString, id)
-			if !idxBucket.IsKeyPresent(key) {
+			if idxBucket == nil || !idxBucket.IsKeyPresent(key) {
 				if fix {
+					idxBucket = index.getIndexBucket(tx, value)
+					if idxBucket.HasError() {
+						return idxBucket.GetError()
+					}
 					if err := idxBucket.Put(key, nil); err != nil {
 						return err
 					}
